@@ -573,6 +573,26 @@ def radau_replay(backward, failed):
                             log.append(f"native violation [{k}] {desc}")
                             log.append(f"after {n} native runs")
                             return True, f"probe script RADAU {x0!r} {xend!r} {h0!r} {ms!r} 100000 {pat} {fl} 3 1   (real RADAU, scripted right-hand side / callback; /verif/replay/src/main.rs)", "\n".join(log)
+    # smooth right-hand side (y' = cos t + y/2): first steps reaching xend that FAIL THE ERROR TEST (the scripted wild values fail Newton instead)
+    for (x0, xend) in ((3.0, 0.0), (1.0, -2.0)) if backward else ((0.0, 3.0), (-1.0, 2.0)):
+        span = abs(xend - x0)
+        for h0 in (span, 1.7 * span, span / 1.00005):
+            for ms in (None, 1e9):
+                for rtol in ("1e-6", "1e-9", "1e-3"):
+                    for fl in ("C", "CM", "CI"):
+                        cfg = (x0, xend, h0, ms, 100000, "A", fl)
+                        try:
+                            d = probe(["smoothrun", "RADAU", repr(x0), repr(xend), repr(h0), "none" if ms is None else repr(ms), rtol, fl], timeout=20)
+                        except Exception as e:
+                            log.append(f"probe failed for {cfg}: {str(e)[:100]}")
+                            continue
+                        n += 1
+                        bad = [b for b in RS.judge("RADAU", cfg, d) if (want is None or b[0] in want) and not (b[0] == "protocol" and "expected" in b[1])]
+                        if bad:
+                            k, desc = bad[0]
+                            log.append(f"native violation [{k}] {desc}")
+                            log.append(f"after {n} native runs")
+                            return True, f"probe smoothrun RADAU {x0!r} {xend!r} {h0!r} {ms!r} {rtol} {fl}   (real RADAU, y' = cos t + y/2)", "\n".join(log)
     log.append(f"{n} native RADAU runs: no native violation of kind {sorted(want) if want else 'any'}")
     return None, "native RADAU battery (rsym/replay.py radau_replay)", "\n".join(log)
 
